@@ -20,7 +20,7 @@ from rs_lex import Tok, TranslateError, skip_balanced, tokenize
 #   ('p_wild',) ('p_id', name) ('p_lit', int) ('p_range', lo, hi) ('p_tuple', (ps...))
 #   ('p_ts', path, (ps...)) ('p_path', path) ('p_struct', path, ((field, pat), ...))
 # types:
-#   ('ty', (segs...), (args...)) ('tytuple', (tys...)) ('tyref', ty) ('tyarr', ty, n) ('tyraw', text)
+#   ('ty', (segs...), (args...)) ('tytuple', (tys...)) ('tyref', ty) ('typtr', ty) ('tyarr', ty, n) ('tyraw', text)
 
 BINOPS = {
     "*": 11, "/": 11, "%": 11,
@@ -108,6 +108,10 @@ class Parser:
                 self.i += 1
             self.eat("mut")
             return ("tyref", self.parse_type())
+        if self.at("*") and (self.at("mut", 1) or self.at("const", 1)):
+            # raw pointer `*mut T` / `*const T` (tie T1: an abstract address, see rs_trans `("ptr", pointee)`)
+            self.i += 2
+            return ("typtr", self.parse_type())
         if self.eat("("):
             tys = []
             while not self.at(")"):
